@@ -31,6 +31,10 @@ pub fn generate(tier: &str, rng: &mut Rng) -> Vec<String> {
     for _ in 0..n / 5 {
         out.push(gen_dec_valid(rng, true).line());
     }
+    // many tiny messages buffered at once (seed C07g)
+    for i in 0..(if thorough { 300 } else { 24 }) {
+        out.push(gen_dec_many(rng, i % 3 != 0).line());
+    }
     // one frame above 64 KiB with more frames behind it in the same chunk (seed C07f)
     for i in 0..(if thorough { 600 } else { 60 }) {
         out.push(gen_dec_big(rng, i % 3 != 0).line());
